@@ -318,6 +318,13 @@ def run_case(case, ctx):
                 ctx.reject('richardson_step_ratio_differs_from_rule_ratio', observed=float(mobj.richardson.step_ratio), expected=r,
                            detail=dict(cls=cname))
                 return
+            # ... and the rule the object applies is the rule of the configuration it was asked for (n, method, order)
+            w_mv = np.asarray(mobj.fd_rule.rule(ratio), dtype=float)
+            if int(mobj.method_order) != method_order or w_mv.shape != w.shape or \
+                    not np.allclose(w_mv, w, rtol=1e-9, atol=1e-12 * float(np.max(np.abs(w)))):
+                ctx.reject('rule_of_a_multivariate_object_differs_from_the_rule_of_its_configuration', observed=w_mv, expected=w,
+                           detail=dict(cls=cname, method_order=int(mobj.method_order), expected_method_order=method_order))
+                return
             bad = [float(v) for v in seen if v is not None and abs(float(v) - ratio) > 4 * EPS * ratio]
             if bad or not seen:
                 ctx.reject('rule_requested_for_another_ratio_than_the_steps_have', observed=bad or 'rule never requested', expected=ratio,
